@@ -353,3 +353,35 @@ func VerifC01_lazy() {
 	}
 	vfObserveStr("text", c.String())
 }
+
+// an item with its own fmt.Formatter layout besides a String method: the documented text form is String()
+type vfFormatted struct{ s string }
+
+func (x vfFormatted) String() string { return x.s }
+func (x vfFormatted) Format(f fmt.State, verb rune) {
+	f.Write([]byte("formatted:"))
+	f.Write([]byte(x.s))
+}
+
+type vfFormattedErr struct{ s string }
+
+func (x *vfFormattedErr) Error() string { return x.s }
+func (x *vfFormattedErr) Format(f fmt.State, verb rune) {
+	f.Write([]byte("E!"))
+}
+
+// VerifC01_formatter: the text-form interfaces decide also for items that implement fmt.Formatter as
+// well (big numbers, errors with stack traces): String(), else GoString(), else Error() - not %v.
+func VerifC01_formatter() {
+	s := vfString("s", 2, vfBYTES)
+	var item interface{}
+	if vfChoice("kind", 2) == 0 {
+		item = vfFormatted{s}
+	} else {
+		item = &vfFormattedErr{s}
+	}
+	c := NewCell(item)
+	vfAssert(c.String() == s, "text")
+	vfAssert(c.Empty() == (s == ""), "empty-iff-text-empty")
+	vfObserveStr("text", c.String())
+}
